@@ -78,6 +78,9 @@ def gen_plan(rng, tier):
             r['sync'] = True
     p.update(strategy=gen_strategy(rng), line_p=rng.choice([0, 0.01, 0.05]), points=rng.choice([0, 2, 4]),
              time_jump_p=rng.choice([0, 0.05, 0.3]))
+    if rng.random() < 0.25:
+        # hosts are never convicted: after a connection loss the pool stays installed without a usable connection for a while
+        p['never_convict'] = True
     if rng.random() < 0.35:
         # tiny stream-id space: a retry draws every id, 0 included, within a few requests (not only after 300 of them)
         p['knobs'] = {'max_in_flight': rng.choice([2, 3, 4, 6]), 'orphaned_threshold': 100000}
